@@ -1,3 +1,4 @@
+import Cose.Go.ByteStr
 import Cose.Driver.MsgOps
 import Cose.Msg.Kdf
 import Cose.Cwt.Claims
@@ -94,6 +95,17 @@ def dispatch (op : String) (args : List String) : Option String :=
   | "dec.recipient" => some (opRecipient args)
   | "dec.bytestr" => some (match args with
       | [h] => (match unhexOpt h with | some b => "ok " ++ hexPlain (b.getD []) | none => "bad-op")
+      | _ => "bad-op")
+  | "dec.bytestrjson" => some (match args with
+      | [h] => (match unhex h with
+          | some d => (match Cose.Go.ByteStr.unmarshalJSON d with
+              | none => "err" | some none => "ok null" | some (some b) => "ok " ++ hex b)
+          | none => "bad-op")
+      | _ => "bad-op")
+  | "dec.bytestrtext" => some (match args with
+      | [h] => (match unhex h with
+          | some d => (match Cose.Go.ByteStr.unmarshalText d with | none => "err" | some b => "ok " ++ hex b)
+          | none => "bad-op")
       | _ => "bad-op")
   | "dec.keyjson" => some (match parseKey args with
       | some (some k) => (match encodeCMap k with | some b => "ok " ++ hex b | none => "unmodelled")
